@@ -58,6 +58,10 @@ META = {
 
 LEVELS = ["ERROR", "WARN", "INFO", "DEBUG", "TRACE"]
 EXCS = ["ValueError", "RuntimeError", "KeyError", "InterpUserError", "InterpKindError"]
+# exception classes the serve loop / the client treat specially when they meet them ON THE TRANSPORT; an implementation
+# whose own backend I/O fails raises exactly these (harness/c04_conn.py adds them to the interpreter's table)
+SPECIAL_EXCS = ["BrokenPipeError", "ConnectionResetError", "ConnectionAbortedError", "OSError", "TimeoutError", "EOFError", "ArrowInvalid",
+                "StopIteration", "InterpRpcError"]
 KINDS = ("pipe", "unix", "tcp")
 
 # failure labels -> finding keys (specific classes; anything else is reported under its own generic key)
@@ -79,7 +83,29 @@ def g_logs(rng: Any, lo: int = 0) -> list[Any]:
 
 
 def g_exc(rng: Any) -> list[str]:
-    return [rng.choice(EXCS), rng.choice(["boom", "", "bad ünicode", "k"])]
+    return [rng.choice(EXCS if rng.random() < 0.6 else SPECIAL_EXCS), rng.choice(["boom", "", "bad ünicode", "k"])]
+
+
+def special_exc_histories() -> list[list[dict[str, Any]]]:
+    """Every special exception class x every site an implementation can raise at (unary method, stream init, process() at
+    the first / a middle / the last batch, the on_cancel hook) x producer / exchange, each followed by a plain stream call
+    (the trailing probe is appended by the caller).  Deterministic: part of every run."""
+    out = []
+    ok = lambda t: {"logs": [["INFO", "s" + str(t), {}]], "emit": {"rows": 1, "meta": None}, "finish": False, "raise": None}  # noqa: E731
+    follow = mk_call("producer", {"init_logs": [], "init": "ok", "header": 3, "steps": [ok(0)]}, True, 0, "stop", label="plain")
+    for cls in SPECIAL_EXCS:
+        e = [cls, "backend " + cls]
+        out.append([mk_call("unary", {"logs": [["INFO", "u", {}]], "result": {"raise": e}}, False, 0, "", label=f"raises:{cls}@unary"), dict(follow)])
+        for kind in ("producer", "exchange"):
+            base = {"init_logs": [["INFO", "i", {}]], "init": "ok", "header": 5, "steps": [ok(0), ok(1), ok(2)]}
+            out.append([mk_call(kind, {**base, "init": {"raise": e}}, True, 1, "close", label=f"raises:{cls}@init"), dict(follow)])
+            for pos, name in ((0, "first"), (1, "middle"), (2, "last")):
+                steps = [ok(0), ok(1), ok(2)]
+                steps[pos] = {**ok(pos), "raise": e}
+                after = "stop" if kind == "producer" else "close"
+                out.append([mk_call(kind, {**base, "steps": steps}, pos % 2 == 0, 3, after, label=f"raises:{cls}@process-{name}"), dict(follow)])
+            out.append([mk_call(kind, {**base, "cancel_raise": e}, False, 1, "cancel", label=f"raises:{cls}@on_cancel"), dict(follow)])
+    return out
 
 
 def g_step(rng: Any, kind: str = "emit", logs: list[Any] | None = None) -> dict[str, Any]:
@@ -427,6 +453,7 @@ def translate(ctx: Any) -> None:
 
 def run(ctx: Any) -> None:
     translate(ctx)
+    import harness.c04_conn  # noqa: F401 - registers the special exception classes with the interpreter before anything is rendered
     # the theorems do not depend on the source; the tie does -- built separately so that a tie broken by the source
     # under test leaves the theorem obligations standing
     ctx.prove(
@@ -458,6 +485,12 @@ def run(ctx: Any) -> None:
         for pos in range(3):
             calls = [g_plain(rng) for _ in range(pos)] + [g_fault(rng, label)] + [g_plain(rng) for _ in range(2 - pos)]
             hists.append(calls)
+    n_special = 0
+    for calls in special_exc_histories():
+        hists.append(calls)
+        n_special += 1
+    n_hist += n_special
+    ctx.count("special_exception_histories", n_special)
     while len(hists) < n_hist:
         n = rng.randrange(1, 6)
         calls = [g_plain(rng) for _ in range(n)]
